@@ -69,6 +69,7 @@ type Fact struct {
 	La       LA       `json:"la"`
 	Units    string   `json:"units"`
 	Type     string   `json:"type"`
+	Iff      []string `json:"iff"`
 }
 type flatmap map[string][]Fact
 
@@ -239,11 +240,15 @@ func kindOf(e *yang.Entry) string {
 			return "action"
 		}
 		return "rpc"
+	case isAction(e):
+		return "action"
 	case e.ListAttr != nil:
 		return "list"
 	}
 	return "container"
 }
+
+func isAction(e *yang.Entry) bool { _, ok := e.Node.(*yang.Action); return ok }
 
 // children: every entry reachable in one step, by name (Dir and rpc input/output).
 func children(e *yang.Entry) map[string]*yang.Entry {
@@ -312,6 +317,14 @@ func Flatten(root *yang.Entry) map[string]*Observed {
 			o.Units = c.Units
 			if c.Type != nil {
 				o.Type = c.Type.Name
+			}
+			o.Iff = []string{}
+			for _, x := range c.Extra["if-feature"] {
+				if v, ok := x.(*yang.Value); ok && v != nil {
+					o.Iff = append(o.Iff, v.Name)
+				} else {
+					o.Iff = append(o.Iff, fmt.Sprintf("?%T", x))
+				}
 			}
 			out[strings.Join(cp, "/")] = o
 			walk(c, cp)
